@@ -29,6 +29,51 @@ func zzUserFnFailed() bool {
 	return false
 }
 
+func zzWrapDepth(v interface{}) int {
+	switch x := v.(type) {
+	case zzWrapped:
+		return 1 + zzWrapDepth(x.arg)
+	case zzWrappedAgg:
+		d := 0
+		for _, a := range x.args {
+			if k := zzWrapDepth(a); k > d {
+				d = k
+			}
+		}
+		return 1 + d
+	}
+	return 0
+}
+
+func zzCallDepth(c zzCall) int {
+	d := 0
+	for _, a := range c.args {
+		if k := zzWrapDepth(a); k > d {
+			d = k
+		}
+	}
+	return d
+}
+
+func zzCallsAtDepth(log []zzCall, d int) []zzCall {
+	var out []zzCall
+	for _, c := range log {
+		if zzCallDepth(c) == d {
+			out = append(out, c)
+		}
+	}
+	return out
+}
+
+func zzHasCall(log []zzCall, c zzCall) bool {
+	for _, x := range log {
+		if x.fn == c.fn && zzSameArgs(x.args, c.args) {
+			return true
+		}
+	}
+	return false
+}
+
 // zzSameArgs compares two argument lists value by value.
 func zzSameArgs(a, b []interface{}) bool {
 	if len(a) != len(b) {
@@ -104,11 +149,31 @@ func zzH_Eval() {
 		}
 	}
 	if zzHas(checks, "C14") {
-		zzAssert(len(implCalls) == len(sp.calls), "call-count")
-		if len(implCalls) == len(sp.calls) {
-			for i := range implCalls {
-				zzAssert(implCalls[i].fn == sp.calls[i].fn, "call-order")
-				zzAssert(zzSameArgs(implCalls[i].args, sp.calls[i].args), "call-arguments")
+		if len(sp.fcalls) == 0 {
+			// Functions at the tail of the path: per chain position (= wrapping
+			// depth of the argument) the calls must be the same sequence. How
+			// calls of different positions interleave is not prescribed.
+			zzAssert(len(implCalls) == len(sp.calls), "call-count")
+			for d := 0; d <= 4; d++ {
+				a, b := zzCallsAtDepth(implCalls, d), zzCallsAtDepth(sp.calls, d)
+				zzAssert(len(a) == len(b), "call-count")
+				if len(a) == len(b) {
+					for i := range a {
+						zzAssert(a[i].fn == b[i].fn, "call-order")
+						zzAssert(zzSameArgs(a[i].args, b[i].args), "call-arguments")
+					}
+				}
+			}
+		} else {
+			// Functions inside filter operands: how often an operand is
+			// evaluated is not prescribed; every call made must be one the
+			// reference makes and vice versa.
+			all := append(append([]zzCall(nil), sp.calls...), sp.fcalls...)
+			for _, c := range implCalls {
+				zzAssert(zzHasCall(all, c), "call-is-expected")
+			}
+			for _, c := range all {
+				zzAssert(zzHasCall(implCalls, c), "expected-call-is-made")
 			}
 		}
 		if err != nil && len(want) == 0 && sp.fnFailed && zzErrKind(err) == "FunctionFailed" {
